@@ -7,6 +7,7 @@ import (
 	"bytes"
 	"encoding/hex"
 	"fmt"
+	"math"
 	"strconv"
 	"strings"
 	"time"
@@ -51,6 +52,10 @@ func (q *Command) Sanitize(args ...any) (string, error) {
 			case int64:
 				str = strconv.FormatInt(arg, 10)
 			case float64:
+				if math.IsNaN(arg) || math.IsInf(arg, 0) {
+					// "NaN", "+Inf" and "-Inf" would be read back as identifiers, not as literals
+					return "", fmt.Errorf("invalid arg: non-finite float %v", arg)
+				}
 				str = strconv.FormatFloat(arg, 'f', -1, 64)
 			case bool:
 				str = strconv.FormatBool(arg)
